@@ -7,7 +7,7 @@
       PipelineTransport.ExchangeContext            ReuseConnTransport.ExchangeContext
         retry := 0                                   retry := 0
         for {                                        for {
-          conn, newConn, err := t.getConn(ctx)         c, err := t.getIdleConn()      ; err → return
+          conn, newConn, err := t.getConn(ctx)         if retry <= 5 { c, err = t.getIdleConn() ; err → return }
           if err != nil { return err }                 if c == nil { isNewConn = true
           resp, err := conn.exchange(ctx, m)                         c, err = t.asyncDial(ctx) ; err → return }
           t.releaseConn(conn)                          resp, err := t.exchangeConnCtx(ctx, payload, c)
@@ -18,6 +18,7 @@
             return err }                                 return err }
           return resp }                                return resp }
 
+      (the reuse loop's LAST allowed attempt, retry = 6, does not consult the pool: it always dials)
       QuicTransport.exchangePayload: as the pipeline loop (`retry < 5`).
       DoHTransport.ExchangeContext : no loop; one `select` on ctx.Done() / the result.
 
@@ -54,6 +55,12 @@ structure Attempt where
   res : Option Nat
   /-- what `ctxIsDone(ctx)` answers if it is evaluated after this attempt failed -/
   ctxDone : Bool
+  /-- what happens if the loop dials in this attempt WITHOUT consulting the pool (only the reuse
+      loop's last attempt does): `none` = the dial fails, `some r` = it succeeds and the exchange on
+      the fresh connection gives `r` -/
+  forced : Option (Option Nat)
+  /-- … and what `ctxIsDone(ctx)` answers after that -/
+  forcedDone : Bool
   deriving DecidableEq, Repr
 
 /-- attempt number ↦ what happens in it. Arbitrary. -/
@@ -92,20 +99,28 @@ def pipelineLoop (o : Oracle) (retry i : Nat) : Out :=
       else ⟨none, i + 1⟩                -- return nil, joinErr(errs)
 termination_by 5 - retry
 
+/-- the attempt as it happens when the pool is not consulted: a dial, whatever the pool holds -/
+def forcedDial (a : Attempt) : Attempt :=
+  match a.forced with
+  | none => { a with get := .dialErr, res := none, ctxDone := a.forcedDone }
+  | some r => { a with get := .fresh, res := r, ctxDone := a.forcedDone }
+
 /-- `ReuseConnTransport.ExchangeContext` (`retry <= 5`). `poolErr` = `getIdleConn`
     returned `ErrClosedTransport`; `dialErr` = `asyncDial` failed. -/
 def reuseLoop (o : Oracle) (retry i : Nat) : Out :=
-  match (o i).get with
+  -- if retry <= 5 { c, err = t.getIdleConn() … }  ;  if c == nil { isNewConn = true; c, err = t.asyncDial(ctx) … }
+  let a := if retry ≤ 5 then o i else forcedDial (o i)
+  match a.get with
   | .poolErr => ⟨none, i + 1⟩
   | .dialErr => ⟨none, i + 1⟩
   | g =>
     let isNewConn := g == .fresh
     -- resp, err := t.exchangeConnCtx(ctx, payload, c)
-    match (o i).res with
+    match a.res with
     | some r => ⟨some r, i + 1⟩
     | none =>
       if _h : retry ≤ 5 then
-        if !isNewConn && !(o i).ctxDone then
+        if !isNewConn && !a.ctxDone then
           reuseLoop o (retry + 1) (i + 1)
         else ⟨none, i + 1⟩
       else ⟨none, i + 1⟩
@@ -161,6 +176,20 @@ def Kind.lim : Kind → Nat
   | .reuse => 6
   | .quic => 5
   | .doh => 0
+
+/-- the reuse loop's attempts as they really happen: from retry 6 on the pool is not consulted -/
+def reuseEff (o : Oracle) : Oracle := fun i => if i ≤ 5 then o i else forcedDial (o i)
+
+/-- the attempts as they really happen in a loop of kind `k` -/
+def eff (k : Kind) (o : Oracle) : Oracle :=
+  match k with
+  | .reuse => reuseEff o
+  | _ => o
+
+/-- attempts `0 … poolLim` take a pooled connection when the pool offers one -/
+def Kind.poolLim : Kind → Nat
+  | .doh => 0
+  | _ => 5
 
 /-- `ExchangeContext` of a transport of kind `k` under oracle `o` -/
 def exchange (k : Kind) (o : Oracle) : Out :=
@@ -298,24 +327,36 @@ def Sel.hasCtxArm (s : Sel) : Bool :=
         C pool / transport closed
   `sil`, `half`, `B` end with the caller's context: `ctxDone = true`. -/
 
+def healthyDial : Option (Option Nat) := some (some 1)
+
 def attemptOfTok (s : String) : Option Attempt :=
   match s with
-  | "pok" => some ⟨.pooled, some 1, false⟩
-  | "pfin" | "prst" | "pgar" | "pidle" => some ⟨.pooled, none, false⟩
-  | "psil" | "phalf" => some ⟨.pooled, none, true⟩
-  | "fok" => some ⟨.fresh, some 1, false⟩
-  | "ffin" | "frst" | "fgar" => some ⟨.fresh, none, false⟩
-  | "fsil" | "fhalf" => some ⟨.fresh, none, true⟩
-  | "gR" => some ⟨.dialErr, none, false⟩
-  | "gB" => some ⟨.dialErr, none, true⟩
-  | "gC" => some ⟨.poolErr, none, false⟩
+  | "pok" => some ⟨.pooled, some 1, false, healthyDial, false⟩
+  | "pfin" | "prst" | "pgar" | "pidle" => some ⟨.pooled, none, false, healthyDial, false⟩
+  | "psil" | "phalf" => some ⟨.pooled, none, true, healthyDial, false⟩
+  | "fok" => some ⟨.fresh, some 1, false, healthyDial, false⟩
+  | "ffin" | "frst" | "fgar" => some ⟨.fresh, none, false, some none, false⟩
+  | "fsil" | "fhalf" => some ⟨.fresh, none, true, some none, true⟩
+  | "gR" => some ⟨.dialErr, none, false, none, false⟩
+  | "gB" => some ⟨.dialErr, none, true, none, true⟩
+  | "gC" => some ⟨.poolErr, none, false, healthyDial, false⟩
   | _ => none
 
-def scriptOfStr (s : String) : Option (List Attempt) :=
-  (s.splitOn ",").mapM attemptOfTok
+/-- what a dial does in the world of a script: the behaviour of its first f- or g-token
+    (a healthy server if there is none) -/
+def worldDial : List Attempt → Option (Option Nat) × Bool
+  | [] => (healthyDial, false)
+  | a :: t => if a.get == .fresh || a.get == .dialErr then (a.forced, a.forcedDone) else worldDial t
+
+/-- the same world for every attempt: a dial made instead of taking a pooled connection meets the
+    script's dial behaviour; the context state after such a dial is that of the f/g-token too -/
+def scriptOfStr (s : String) : Option (List Attempt) := do
+  let l ← (s.splitOn ",").mapM attemptOfTok
+  let d := worldDial l
+  pure (l.map fun a => { a with forced := d.1, forcedDone := d.2 })
 
 /-- beyond the script: no pooled connection is left and the server is healthy -/
-def defaultAttempt : Attempt := ⟨.fresh, some 1, false⟩
+def defaultAttempt : Attempt := ⟨.fresh, some 1, false, healthyDial, false⟩
 
 def oracleOf (l : List Attempt) : Oracle := fun i => l.getD i defaultAttempt
 
@@ -343,10 +384,11 @@ structure Obs where
 
 def predict (k : Kind) (o : Oracle) (obs : String) : Obs :=
   let out := exchange k o
-  let last := o (out.n - 1)
+  let e := eff k o
+  let last := e (out.n - 1)
   { ok := out.res.isSome
-    att := if obs.contains 'a' then some (exchUpTo o out.n) else none
-    dials := if obs.contains 'd' then some (dialsUpTo o out.n) else none
+    att := if obs.contains 'a' then some (exchUpTo e out.n) else none
+    dials := if obs.contains 'd' then some (dialsUpTo e out.n) else none
     t := if out.res.isNone && last.ctxDone then "intime" else "prompt"
     woke := true, leak := 0 }
 
@@ -355,6 +397,8 @@ def predict (k : Kind) (o : Oracle) (obs : String) : Obs :=
   * returns no later than the deadline plus slack, whatever the server does;
   * a failure on a pooled connection while a healthy server is reachable (context live):
     retried — at most `lim` times — and succeeds;
+  * connection-reuse transports: however many stale connections the pool holds, if a dial reaches
+    a healthy server (and the context is live) the exchange succeeds;
   * a bounded number of attempts; a failure on a freshly dialled connection is reported, not
     retried: at most one dial per exchange;
   * when connections die (no silent fault involved) the exchange ends promptly, and so does
@@ -368,20 +412,27 @@ def staleThenHealthy (lim : Nat) (l : List Attempt) : Bool :=
   let k := (l.takeWhile isStale).length
   decide (k ≤ lim) && isHealthy (l.getD k defaultAttempt)
 
+/-- every attempt of the script is healthy or fails on a pooled connection with the context live,
+    and a dial reaches a healthy server -/
+def stalePoolHealthyServer (l : List Attempt) : Bool :=
+  l.all fun a => (isHealthy a || isStale a) && (a.forced.getD none).isSome
+
 def spec (k : Kind) (l : List Attempt) (o : Obs) : Bool :=
   o.t != "late" &&
-  (if k != .doh && staleThenHealthy k.lim l then o.ok else true) &&
+  (if k != .doh && staleThenHealthy k.poolLim l then o.ok else true) &&
+  (if k == .reuse && stalePoolHealthyServer l then o.ok else true) &&
   (match o.att with | some a => decide (a ≤ k.lim + 1) | none => true) &&
   (match o.dials with | some d => decide (d ≤ 1) | none => true) &&
-  (if l.all (fun a => !a.ctxDone) then o.t == "prompt" else true) &&
+  (if l.all (fun a => !a.ctxDone && !a.forcedDone) then o.t == "prompt" else true) &&
   o.woke && o.leak == 0
 
 def specReason (k : Kind) (l : List Attempt) (o : Obs) : String :=
   if o.t == "late" then "late"
-  else if k != .doh && staleThenHealthy k.lim l && !o.ok then "stale-not-survived"
+  else if k != .doh && staleThenHealthy k.poolLim l && !o.ok then "stale-not-survived"
+  else if k == .reuse && stalePoolHealthyServer l && !o.ok then "stale-pool-not-survived"
   else if (match o.att with | some a => decide (a > k.lim + 1) | none => false) then "unbounded"
   else if (match o.dials with | some d => decide (d > 1) | none => false) then "fresh-retried"
-  else if l.all (fun a => !a.ctxDone) && o.t != "prompt" then "not-prompt"
+  else if l.all (fun a => !a.ctxDone && !a.forcedDone) && o.t != "prompt" then "not-prompt"
   else if !o.woke then "waiters-not-woken"
   else if o.leak != 0 then "dead-conn-not-closed"
   else "other"
@@ -429,8 +480,8 @@ def run (case impl : String) : String × String :=
   out : `res=<o|e per waiter> woke=<0|1> t=<prompt|intime|late> leak=<n>` -/
 
 def waiterOracle (fresh nextOk : Bool) : Oracle := fun i =>
-  if i = 0 then ⟨if fresh then .fresh else .pooled, none, false⟩
-  else if nextOk then ⟨.fresh, some 1, false⟩ else ⟨.dialErr, none, false⟩
+  if i = 0 then ⟨if fresh then .fresh else .pooled, none, false, none, false⟩
+  else if nextOk then ⟨.fresh, some 1, false, none, false⟩ else ⟨.dialErr, none, false, none, false⟩
 
 /-- all waiters are parked on `c`, `c` dies; each one whose `connDone` arm is ready returns an
     error from `exchange` and goes through the pipeline retry loop -/
